@@ -6,7 +6,7 @@ Each entry: property -> [(rule id, rule text, instance floor, function(ctx, rule
 import ast
 
 from ..core import AnalysisError, dotted, walk_no_nested
-from ..util import const_val, calls_in
+from ..util import const_val, calls_in, builder_names
 
 EXTRA = {}
 
@@ -189,7 +189,7 @@ def one_sided_keys_of_ignored_paths(ctx, rule):
         it = ast.unparse(lp.iter)
         if '-' in it and '&' not in it:
             for c in calls_in(lp):
-                if isinstance(c.func, ast.Attribute) and c.func.attr in ('add', 'remove') and dotted(c.func.value) == 'di':
+                if isinstance(c.func, ast.Attribute) and c.func.attr in ('add', 'remove') and dotted(c.func.value) in builder_names(dd):
                     one_sided.append(c)
     if len(one_sided) < 2:
         raise AnalysisError('diff_dicts: the two one-sided key loops (remove / add) were not found')
